@@ -8,7 +8,10 @@ from .. import common, driver, gen, impl
 from .. import framework as fw
 
 GEN_SECTIONS = []
+# arithmetic leaf functions whose ASTs are dumped from /repo and proved equal to the hand model (lean/Chartparse/Tie/<X>.lean)
+LEAVES = {'Secs': 'secs'}
 TRUSTED = [
+    "leaf ties: Py.evalBody (embedded Python subset, validated against CPython on random expressions and against the real leaf functions every run) + the AST dump",
     "Lean 4 kernel; axioms ⊆ {propext, Classical.choice, Quot.sound}",
     "hand model of binary64 round-to-nearest-even on exact rationals (unbounded exponent), of "
     "`timedelta(seconds=float)` microsecond rounding, of seconds_from_ticks_at_bpm and of the tempo accumulation; "
